@@ -45,7 +45,7 @@ func (g *Gen) calleeDef() ([]L.Stmt, func(args []L.Expr) *L.CallExpr, string, L.
 	}
 	usesDots := false
 	if vararg {
-		switch g.n(5, "varform") {
+		switch g.n(6, "varform") {
 		case 0:
 			log = append(log, call(name("select"), str("#"), &L.VarargExpr{}), &L.VarargExpr{})
 			usesDots = true
@@ -61,6 +61,14 @@ func (g *Gen) calleeDef() ([]L.Stmt, func(args []L.Expr) *L.CallExpr, string, L.
 				log = append(log, bin("and", bin(">", call(name("select"), str("#"), &L.VarargExpr{}), num(0)), paren(call(name("select"), num(-1), &L.VarargExpr{}))))
 				g.class("call:select_negative")
 			}
+			usesDots = true
+		case 5:
+			// one value of ... stored into locals that have other live locals above and below them
+			body = append(body, local([]string{"va", "vb", "vc"}, str("A"), str("B"), str("C")), assign1(name("va"), paren(&L.VarargExpr{})), emit(str("va = (...)"), name("va"), name("vb"), name("vc")),
+				assign1(name("vb"), &L.VarargExpr{}), emit(str("vb = ..."), name("va"), name("vb"), name("vc")),
+				&L.AssignStmt{Targets: []L.Expr{name("vc"), name("va")}, Exprs: []L.Expr{&L.VarargExpr{}}}, emit(str("vc, va = ..."), name("va"), name("vb"), name("vc")))
+			log = append(log, call(name("select"), str("#"), &L.VarargExpr{}))
+			g.class("call:dots_into_inner_locals")
 			usesDots = true
 		case 3:
 			// select(k, ...) for k inside, at and beyond the end of the list (beyond: no values, not an error)
@@ -93,8 +101,9 @@ func (g *Gen) calleeDef() ([]L.Stmt, func(args []L.Expr) *L.CallExpr, string, L.
 		if np > 0 {
 			sig += ":bare"
 			var rs []L.Expr
+			// any of the parameters, in any order: the first one (with the others live above it) as well as the last
 			for i, n := 0, 1+g.n(3, "barerets"); i < n; i++ {
-				rs = append(rs, name(params[(np-1+i*(np-1))%np]))
+				rs = append(rs, name(params[g.n(np, "bareret")]))
 			}
 			if vararg && g.n(2, "baredots") == 0 {
 				rs = append(rs, &L.VarargExpr{})
